@@ -19,12 +19,14 @@ import (
 type gRule struct {
 	Name, Action, From, To string
 	Src, Dst, Srv          []string
-	Extra                  string
-	Append                 bool
+	// "" = the value every generated rule has (any / yes / yes / absent / interzone)
+	App, LogStart, LogEnd, LogSetting, RuleType string
+	Extra                                       string
+	Append                                      bool
 }
 
 type gAddr struct{ Name, IP, Extra string }
-type gSvc struct{ Name, Proto, Port, Extra string }
+type gSvc struct{ Name, Proto, Port, Extra, PortExtra, ProtoExtra string }
 type gGrp struct {
 	Name    string
 	Members []string
@@ -56,7 +58,17 @@ func (r gRule) xml() string {
 	fmt.Fprintf(&b, `<entry name="%s"><action>%s</action><from><member>%s</member></from><to><member>%s</member></to>`,
 		xmlEsc(r.Name), r.Action, r.From, r.To)
 	b.WriteString(members("source", r.Src) + members("destination", r.Dst) + members("service", r.Srv))
-	b.WriteString(`<application><member>any</member></application><rule-type>interzone</rule-type><log-start>yes</log-start><log-end>yes</log-end>`)
+	or := func(v, d string) string {
+		if v == "" {
+			return d
+		}
+		return v
+	}
+	fmt.Fprintf(&b, `<application><member>%s</member></application><rule-type>%s</rule-type><log-start>%s</log-start><log-end>%s</log-end>`,
+		or(r.App, "any"), or(r.RuleType, "interzone"), or(r.LogStart, "yes"), or(r.LogEnd, "yes"))
+	if r.LogSetting != "" {
+		b.WriteString("<log-setting>" + r.LogSetting + "</log-setting>")
+	}
 	b.WriteString(r.Extra)
 	if r.Append {
 		b.WriteString("<APPEND/>")
@@ -95,8 +107,8 @@ func (v gVsys) xml() string {
 	if len(v.Svcs) > 0 {
 		b.WriteString("<service>")
 		for _, o := range v.Svcs {
-			fmt.Fprintf(&b, `<entry name="%s"><protocol><%s><port>%s</port></%s></protocol>%s</entry>`,
-				xmlEsc(o.Name), o.Proto, o.Port, o.Proto, o.Extra)
+			fmt.Fprintf(&b, `<entry name="%s"><protocol><%s><port>%s</port>%s</%s>%s</protocol>%s</entry>`,
+				xmlEsc(o.Name), o.Proto, o.Port, o.PortExtra, o.Proto, o.ProtoExtra, o.Extra)
 		}
 		b.WriteString("</service>")
 	}
@@ -261,8 +273,11 @@ func (w *world) rule(v *gVsys, name string) gRule {
 		r.Action = "drop"
 	}
 	r.Src, r.Dst, r.Srv = w.addrList(v), w.addrList(v), w.srvList(v)
+	if w.rng.Chance(6) {
+		r.LogSetting = "TDC-Panorama"
+	}
 	if w.rng.Chance(8) {
-		r.Extra = Pick(w.rng, []string{"<log-setting>TDC-Panorama</log-setting>", "<description>x  y</description>",
+		r.Extra = Pick(w.rng, []string{"<description>x  y</description>",
 			"<source-user><member>foo</member></source-user>", "<category><member>any</member></category>",
 			"<tag>\n <member>t1</member>\n</tag>"})
 	}
@@ -477,7 +492,17 @@ func without(l []string, drop map[string]bool) []string {
 // mutate applies one random change to the target under construction.
 func (w *world) mutate(v *gVsys) {
 	rng := w.rng
-	k := rng.Intn(30)
+	k := rng.Intn(32)
+	switch k {
+	case 30, 31:
+		w.mutateOne(v, 7)
+		return
+	}
+	w.mutateOne(v, k)
+}
+
+func (w *world) mutateOne(v *gVsys, k int) {
+	rng := w.rng
 	switch k {
 	case 0, 1: // delete a rule
 		if len(v.Rules) > 0 {
@@ -504,16 +529,44 @@ func (w *world) mutate(v *gVsys) {
 	case 7: // change what is compared besides the lists
 		if len(v.Rules) > 0 {
 			r := &v.Rules[rng.Intn(len(v.Rules))]
-			if rng.Bool() {
-				if r.Action == "allow" {
-					r.Action = "drop"
-				} else {
-					r.Action = "allow"
+			other := func(cur string, vals ...string) string {
+				for _, x := range vals {
+					if x != cur {
+						return x
+					}
 				}
-			} else {
-				r.Extra = "<description>changed</description>"
+				return cur
 			}
-			w.note("changeHdr")
+			// exactly one of the attributes the planner compares
+			switch rng.Intn(9) {
+			case 0:
+				r.Action = other(r.Action, "allow", "drop")
+				w.note("changeHdr:action")
+			case 1:
+				r.From = other(r.From, w.zones...)
+				w.note("changeHdr:from")
+			case 2:
+				r.To = other(r.To, w.zones...)
+				w.note("changeHdr:to")
+			case 3:
+				r.App = other(r.App, "", "ssl")
+				w.note("changeHdr:application")
+			case 4:
+				r.LogStart = other(r.LogStart, "", "no")
+				w.note("changeHdr:log-start")
+			case 5:
+				r.LogEnd = other(r.LogEnd, "", "no")
+				w.note("changeHdr:log-end")
+			case 6:
+				r.LogSetting = other(r.LogSetting, "", "TDC-Panorama")
+				w.note("changeHdr:log-setting")
+			case 7:
+				r.RuleType = other(r.RuleType, "", "universal")
+				w.note("changeHdr:rule-type")
+			case 8:
+				r.Extra = other(r.Extra, "<description>changed</description>", "<description>other</description>")
+				w.note("changeHdr:unknown")
+			}
 		}
 	case 8, 9: // add members to a list
 		if ls := lists(v); len(ls) > 0 {
@@ -657,22 +710,38 @@ func (w *world) mutate(v *gVsys) {
 				if v.Addrs[j].Name == w.addrs[i].Name {
 					if rng.Bool() {
 						v.Addrs[j].IP = fmt.Sprintf("10.9.9.%d/32", i)
+						w.note("addrChange:ip")
 					} else {
 						v.Addrs[j].Extra = "<description>new</description>"
+						w.note("addrChange:unknown")
 					}
-					w.note("addrChange")
 				}
 			}
 		}
 	case 26: // same service name, other definition
 		if len(v.Svcs) > 0 {
 			s := &v.Svcs[rng.Intn(len(v.Svcs))]
-			if rng.Bool() {
+			switch rng.Intn(5) {
+			case 0:
 				s.Port = s.Port + "1"
-			} else {
+				w.note("svcChange:port")
+			case 1:
 				s.Extra = "<description>new</description>"
+				w.note("svcChange:unknown")
+			case 2:
+				if s.Proto == "tcp" {
+					s.Proto = "udp"
+				} else {
+					s.Proto = "tcp"
+				}
+				w.note("svcChange:protocol")
+			case 3:
+				s.PortExtra = "<override><no/></override>"
+				w.note("svcChange:port-unknown")
+			case 4:
+				s.ProtoExtra = "<sctp><port>1</port></sctp>"
+				w.note("svcChange:protocol-unknown")
 			}
-			w.note("svcChange")
 		}
 	case 27: // other service name, same definition / other service list
 		if len(v.Rules) > 0 {
